@@ -259,3 +259,55 @@ REG.unit(Unit(
     canaries=[("never-announces", "ghost('writes_to')[self.writer] == old(ghost('writes_to'))[self.writer]")],
 ))
 from . import util as _U  # noqa: E402  (named regular languages)
+
+
+# ---------------------------------------------------------------------------------------------------- NotifyServer.run (C20)
+# One hub per machine: the FIRST worker that binds the port relays ids between all workers; every other worker's attempt fails with
+# OSError and it becomes a pure client.  That only works while the listener is bound EXCLUSIVELY -- with SO_REUSEPORT several workers
+# would each run their own hub and an id would reach only the workers connected to the same one.
+from .common import asyncio_attr  # noqa: E402
+
+
+class _ServerCM:
+    def enter(self, sx, st, node):
+        return [R(st, Conc(self))]
+
+    def exit(self, sx, st, exc, node):
+        return [R(st, False)]
+
+    def __pyvc_getattr__(self, sx, attr, st, node):
+        if attr == "serve_forever":
+            return [R(st, Func(lambda sx2, a, k, s, n: [R(s, NONE), R(s.fork(), None, Exc("CancelledError"))], "server.serve_forever"))]
+        raise Unsupported("server.%s" % attr, node)
+
+
+REG.ctx_managers.append((lambda m, st: isinstance(m, Conc) and isinstance(m.v, _ServerCM), lambda m: m.v))
+
+
+@asyncio_attr("start_server")
+def _aio_start_server(sx, st, node):
+    def start(sx2, a, k, s, n):
+        """asyncio.start_server(cb, host, port, **kw) (ASSUMED): binds and listens, OSError if the address is in use"""
+        shared = None
+        for kw in ("reuse_port",):
+            if kw in k:
+                v = k[kw]
+                shared = sx2.truthy(sx2.lift(v) if isinstance(v, Conc) else v, s)
+        sx2.oblige(s, "%s/listen:exclusive-bind-one-hub-per-port" % sx2.cur_func, z3.Not(shared) if shared is not None else z3.BoolVal(True), "typestate", n)
+        s.ghost["listeners"] = Val(V.Int, s.ghost["listeners"].term + 1)
+        return [R(s, Conc(_ServerCM())), R(s.fork(), None, Exc("OSError"))]
+    return [R(st, Func(start, "asyncio.start_server"))]
+
+
+def ghost_server_run(sx, st):
+    st.ghost["listeners"] = V.mk_int(0)
+
+
+REG.unit(Unit(
+    P, "NotifyServer.run",
+    Contract("NotifyServer.run", {"self": V.ObjT("NotifyServer")},
+             ensures=[("at-most-one-listener", "ghost('listeners') <= 1")],
+             raises={"CancelledError": True}),
+    props=["C20"], ghost_init=ghost_server_run,
+    canaries=[("never-returns", "False")],
+))
